@@ -1,8 +1,12 @@
-"""C18 — whitespace noise and digit script (digit clause only).
+"""C18 — whitespace noise and digit script.
 
 R1 every regex literal applied to the date string before numeral translation is blind to the digit script
 R2 numeral translation is the first operation on the string in Locale.translate / is_applicable and its
    str.isdecimal guard agrees with the \\d class of the splitting pattern
+R3 whitespace: the sanitising pipeline reaches a canonical whitespace form (runs collapsed to one space, both ends trimmed,
+   each end on its own) and no pattern that looks at exact spacing is applied before that point; everything downstream
+   is then a function of the canonical string
+R4 trailing colon: the colon trim runs on a string whose right end has been trimmed (so 'x:' and 'x: ' agree)
 """
 import ast
 
@@ -20,7 +24,13 @@ EXPLANATION = (
     "still-raw value. Each such pattern is parsed (re._parser) and must contain no construct that separates ASCII "
     "digits from other Unicode decimal digits (ranges inside 0-9, literal digits); \\d is script-blind. If the whole raw "
     "stage is script-blind it commutes with digit substitution, and the first thing both locale entry points do is to "
-    "map every str.isdecimal run to ASCII. The whitespace clause of the property is NOT decided (see DESIGN)."
+    "map every str.isdecimal run to ASCII. Whitespace clause: the string pipeline of sanitize_date (helpers inlined) is "
+    "abstractly interpreted over the facts {runs collapsed, left end trimmed, right end trimmed}; before all three hold "
+    "no applied pattern may contain a construct whose outcome depends on which whitespace characters are present or how "
+    "many (anything matching a member of {space, tab, newline, CR, NBSP} other than an unbounded \\s run, '.', ^ $); the "
+    "canonical form must be reached, by statements that dominate every later use of the string in get_date_data; the "
+    "trailing-colon trim must see a right-trimmed string. Then two strings that differ only in whitespace noise are equal "
+    "from that point on."
 )
 REGEX_METHODS = ("sub", "subn", "search", "match", "fullmatch", "split", "findall", "finditer")
 
@@ -28,6 +38,7 @@ REGEX_METHODS = ("sub", "subn", "search", "match", "fullmatch", "split", "findal
 def run(ctx, chk):
     r1(ctx, chk)
     r2(ctx, chk)
+    r3(ctx, chk)
 
 
 def r1(ctx, chk):
@@ -116,3 +127,176 @@ def r2(ctx, chk):
     chk.ob(rule, "_translate_numerals converts exactly the str.isdecimal tokens (Nd, what int() accepts) and keeps their width", ok,
            "the guard/convert pair changed (isdigit would admit superscripts that int() rejects; dropping zfill loses leading zeros)",
            key={"function": tn.key, "construct": "isdecimal -> int -> zfill"}, file=tn.file, function=tn.qual, line=tn.node.lineno)
+
+
+# ---- whitespace clause -------------------------------------------------------------------
+
+def _string_ops(ctx, fkey, rule, depth=0):
+    """the straight-line string pipeline of a sanitising function: [dict(kind, pat, repl, name, func, line, flags)]
+    kinds: sub | strip | joinsplit | rstrip_colon ; helper calls p = helper(p) are inlined"""
+    ix = ctx.ix
+    f = ix.func(fkey)
+    p = f.params()[0]
+    out = []
+    for s in f.node.body:
+        if isinstance(s, ast.Expr) and isinstance(s.value, ast.Constant):
+            continue
+        if isinstance(s, ast.Return):
+            if s.value is None or ast.unparse(s.value) != p:
+                raise AnalysisError(rule, "%s does not return its rewritten argument" % f.qual)
+            continue
+        if not (isinstance(s, ast.Assign) and len(s.targets) == 1 and ast.unparse(s.targets[0]) == p and isinstance(s.value, ast.Call)):
+            raise AnalysisError(rule, "%s: statement outside the string-pipeline idiom: %s" % (f.qual, ast.unparse(s)[:60]))
+        c = s.value
+        fn = ast.unparse(c.func)
+        base = dict(func=f, line=s.lineno, text=" ".join(ast.unparse(s).split())[:100])
+        if isinstance(c.func, ast.Attribute) and c.func.attr == "sub" and len(c.args) >= 2 and ast.unparse(c.args[-1]) == p:
+            recv = c.func.value
+            pat = flags = None
+            if isinstance(recv, ast.Name) and recv.id in ("re", "regex") and len(c.args) == 3:
+                pat, flags, name, repl_e = fold_str(c.args[0], f, ix), "", "inline", c.args[1]
+            elif isinstance(recv, ast.Name) and len(c.args) == 2:
+                name, repl_e = recv.id, c.args[0]
+                ent = ix.lookup_module_attr(f.module, recv.id)
+                if isinstance(ent, tuple) and ent[0] == "var":
+                    try:
+                        pat, flags = rx.module_regex(ix, ent[1].name, ent[2])
+                    except AnalysisError:
+                        pat = None
+            else:
+                raise AnalysisError(rule, "%s: unrecognised substitution %s" % (f.qual, base["text"]))
+            repl = fold_str(repl_e, f, ix)
+            out.append(dict(base, kind="sub", pat=pat, repl=repl, name=name, flags=flags or ""))
+        elif fn == p + ".strip" and not c.args:
+            out.append(dict(base, kind="strip", name="strip()"))
+        elif fn in (p + ".rstrip", p + ".strip") and len(c.args) == 1 and isinstance(c.args[0], ast.Constant) and c.args[0].value == ":":
+            out.append(dict(base, kind="rstrip_colon", name=fn.split(".")[-1] + "(':')"))
+        elif fn in ("' '.join",) and len(c.args) == 1 and ast.unparse(c.args[0]) == p + ".split()":
+            out.append(dict(base, kind="joinsplit", name="' '.join(split())"))
+        elif isinstance(c.func, ast.Name) and [ast.unparse(a) for a in c.args] == [p] and not c.keywords:
+            ent = ix.lookup_module_attr(f.module, c.func.id)
+            if not (hasattr(ent, "key") and hasattr(ent, "params")) or depth > 3:
+                raise AnalysisError(rule, "%s: helper %s cannot be resolved" % (f.qual, c.func.id))
+            out += _string_ops(ctx, ent.key, rule, depth + 1)
+        else:
+            raise AnalysisError(rule, "%s: unrecognised rewrite %s" % (f.qual, base["text"]))
+    return out
+
+
+def r3(ctx, chk):
+    rule = "C18.R3"
+    ix = ctx.ix
+    ops = _string_ops(ctx, "dateparser.date:sanitize_date", rule)
+    facts = set()       # C: runs collapsed to one space, L / R: that end carries no whitespace
+    present = set(rx.WS_FAMILY)     # members of the whitespace family that may still occur in the string
+    canonical_at = None
+    n_pre = n_post = 0
+    colon_ok = None
+    colon_seen = False
+    for i, op in enumerate(ops):
+        f = op["func"]
+        canon = canonical_at is not None     # sticky: from the canonical point on the value is the same for every rewriting
+        if op["kind"] == "strip":
+            facts |= {"L", "R"}
+        elif op["kind"] == "joinsplit":
+            facts |= {"C", "L", "R"}
+        elif op["kind"] == "rstrip_colon":
+            colon_seen = True
+            colon_ok = "R" in facts
+            facts -= {"R"}
+        else:
+            pat, repl = op["pat"], op["repl"]
+            if pat is None:
+                if not canon:
+                    raise AnalysisError(rule, "%s: pattern of %s applied before whitespace is normalised is not a constant" % (f.qual, op["name"]))
+                n_post += 1
+                facts -= {"C", "L", "R"} if repl is None or any(ch.isspace() for ch in repl) else set()
+                continue
+            import re as _re
+            ascii_flag = _re.search(r"\b(re|regex)\.(ASCII|A)\b", op["flags"]) is not None
+            sides = rx.trim_sides(pat, repl) if repl is not None else None
+            matched = {cp for cp in present if not ascii_flag or cp < 128}
+            sens0, pure0 = rx.whitespace_constructs(pat)
+            if repl is not None and not sens0 and pure0 and repl != "" and all(ord(ch) in present for ch in repl) and not canon:
+                # whitespace -> whitespace mapping (e.g. NBSP -> ' '): those members are no longer present afterwards
+                gone = {cp for cp in present if any(chr(cp) in x for x in pure0)}
+                present = (present - gone) | {ord(ch) for ch in repl}
+                n_pre += 1
+                continue
+            if repl is not None and rx.is_ws_collapse(pat, repl) and matched >= present:
+                facts |= {"C"}      # a leading/trailing run becomes one space: L/R unchanged
+            elif sides is not None and "C" in facts:
+                facts |= sides
+                chk.ob(rule, "the whitespace trim %s removes whitespace from either end on its own" % op["name"], bool(sides),
+                       "the pattern only fires when BOTH ends carry whitespace: 'x: ' keeps its trailing blank while ' x: ' loses it",
+                       key={"function": f.key, "construct": "trim " + op["name"]}, file=f.file, function=f.qual, line=op["line"], text=op["text"])
+            elif repl is not None and rx.trailing_colon_trim(pat, repl):
+                colon_seen = True
+                colon_ok = "R" in facts
+                facts -= {"R"}      # 'x :' -> 'x '
+            else:
+                if canon:
+                    n_post += 1
+                else:
+                    n_pre += 1
+                    sens, pure = rx.whitespace_constructs(pat)
+                    if pure and not (repl is not None and repl != "" and all(ch.isspace() for ch in repl)):
+                        sens = sens + ["whitespace alternative %r replaced by %r" % (x, repl) for x in pure]
+                    chk.ob(rule, "%s runs before whitespace is normalised and does not look at exact spacing" % op["name"], not sens,
+                           "the pattern sees the caller's raw whitespace (%s): the same date written with doubled spaces, tabs, newlines "
+                           "or no-break spaces is sanitised differently" % "; ".join(sorted(set(sens))[:3]),
+                           key={"function": f.key, "construct": "raw-whitespace regex " + op["name"]},
+                           file=f.file, function=f.qual, line=op["line"], text=op["text"])
+                # effect of a general substitution on the facts: a replacement carrying whitespace may create runs/ends
+                if repl is None or any(ch.isspace() for ch in repl):
+                    facts -= {"C", "L", "R"}
+        if canonical_at is None and {"C", "L", "R"} <= facts:
+            canonical_at = op
+    first = ops[0]["func"] if ops else ix.func("dateparser.date:sanitize_date")
+    sd = ix.func("dateparser.date:sanitize_date")
+    chk.ob(rule, "sanitize_date brings whitespace to a canonical form (runs -> one space, both ends trimmed independently)",
+           canonical_at is not None, "no point of the pipeline establishes {collapsed, left-trimmed, right-trimmed}",
+           key={"function": sd.key, "construct": "canonical whitespace reached"}, file=sd.file, function=sd.qual, line=sd.node.lineno)
+    chk.floor(rule, n_pre + n_post, 5, "pattern applications in the sanitising pipeline")
+    chk.note("C18.R3: %d pattern(s) applied before the canonical point, %d after" % (n_pre, n_post))
+
+    rule4 = "C18.R4"
+    chk.ob(rule4, "a trailing-colon trim exists in the sanitising pipeline", colon_seen, "",
+           key={"function": sd.key, "construct": "colon trim present"}, file=sd.file, function=sd.qual, line=sd.node.lineno)
+    if colon_seen:
+        chk.ob(rule4, "the trailing-colon trim sees a right-trimmed string", bool(colon_ok),
+               "'x:' followed by a blank or a newline keeps its colon",
+               key={"function": sd.key, "construct": "colon trim after right trim"}, file=sd.file, function=sd.qual, line=sd.node.lineno)
+        chk.ob(rule4, "whitespace uncovered by the colon trim ('x :') is removed afterwards", "R" in facts,
+               "'x :' is sanitised to 'x ' while 'x' stays 'x'",
+               key={"function": sd.key, "construct": "right trim after colon trim"}, file=sd.file, function=sd.qual, line=sd.node.lineno)
+
+    # get_date_data: everything but the custom-format attempt (C14) works on the sanitised string
+    entry = ix.func("dateparser.date:DateDataParser.get_date_data")
+    p0 = entry.params()[1]
+    g = CFG(entry.node)
+    san = [s for s in iter_own_stmts(entry.node.body) if isinstance(s, ast.Assign) and isinstance(s.value, ast.Call)
+           and ast.unparse(s.value.func) == "sanitize_date" and ast.unparse(s.targets[0]) == p0
+           and [ast.unparse(a) for a in s.value.args] == [p0]]
+    chk.ob(rule, "get_date_data replaces its argument by sanitize_date(argument)", len(san) == 1, "",
+           key={"function": entry.key, "construct": "sanitize assignment"}, file=entry.file, function=entry.qual, line=entry.node.lineno)
+    if len(san) == 1:
+        for s in iter_own_stmts(entry.node.body):
+            if s is san[0] or isinstance(s, (ast.If, ast.For, ast.While, ast.Try, ast.With)):
+                hdr = s.test if isinstance(s, (ast.If, ast.While)) else s.iter if isinstance(s, ast.For) else None
+                if hdr is None:
+                    continue
+                uses = [n for n in ast.walk(hdr) if isinstance(n, ast.Name) and n.id == p0]
+                probe = hdr
+            else:
+                uses = [n for n in ast.walk(s) if isinstance(n, ast.Name) and n.id == p0 and isinstance(n.ctx, ast.Load)]
+                probe = s
+            if not uses:
+                continue
+            txt = ast.unparse(probe)
+            if "isinstance(" in txt or "parse_with_formats" in txt or isinstance(s, ast.Raise):
+                continue
+            chk.ob(rule, "get_date_data: `%s` works on the sanitised string" % " ".join(txt.split())[:50], g.dominates(san[0], s),
+                   "language work can see the caller's raw whitespace",
+                   key={"function": entry.key, "construct": "sanitised before " + " ".join(txt.split())[:50]},
+                   file=entry.file, function=entry.qual, line=s.lineno)
